@@ -502,6 +502,9 @@ package bus
 //@   modifies everything
 //@   call RegisterEvent#1: assert[C13] subscriptions == 1 && arg0 == p.object && arg1 == action && arg2 == uint64(handler)
 //@   call State#2: assert[C13] subscriptions == 1 && arg1 == handler
+// the reference count and the stored handler id are kept per (service, object, action)
+//@   call Sprintf#1: assert[C13] len(arg1) == 3 && unbox(arg1[0], uint32) == p.service && unbox(arg1[1], uint32) == p.object && unbox(arg1[2], uint32) == action
+//@   call Sprintf#2: assert[C13] len(arg1) == 3 && unbox(arg1[0], uint32) == p.service && unbox(arg1[1], uint32) == p.object && unbox(arg1[2], uint32) == action
 //@ func (p proxy) SubscribeID$1()
 //@   tags C13
 //@   requires p.client != nil && cancel != nil
@@ -509,6 +512,9 @@ package bus
 //@   call UnregisterEvent#1: assert[C13] subscriptions == 0 && arg0 == p.object && arg1 == action && arg2 == uint64(handler)
 //@   call State#2: assert[C13] subscriptions == 0 && arg1 == 0
 //@   call State#3: assert[C13] arg1 == int(0 - handler)
+//@   call Sprintf#1: assert[C13] len(arg1) == 3 && unbox(arg1[2], uint32) == action
+//@   call Sprintf#2: assert[C13] len(arg1) == 3 && unbox(arg1[2], uint32) == action
+//@   call Sprintf#3: assert[C13] len(arg1) == 3 && unbox(arg1[2], uint32) == action
 
 // Server-side subscriber table: removal takes out exactly the entry of (user id, connection).
 //@ func (o *signalHandler) removeSignalUser(userID uint64, from Channel) (err error)
